@@ -201,15 +201,17 @@ func (g *G) event(on *ye.Node, ev string) {
 
 // WF is a generated workflow with the bookkeeping other checks need.
 type WF struct {
-	Root         *ye.Node
-	HasCall      bool
-	HasDispatch  bool
-	CallInputs   []string
-	CallSecrets  []string
-	Jobs         []string
-	JobOutputs   map[string][]string
-	RegularJobs  []string // jobs with steps (not reusable workflow calls)
-	CallSecDecl  bool
+	Root           *ye.Node
+	HasCall        bool
+	HasDispatch    bool
+	CallInputs     []string
+	CallSecrets    []string
+	Jobs           []string
+	JobOutputs     map[string][]string
+	RegularJobs    []string // jobs with steps (not reusable workflow calls)
+	CallSecDecl    bool
+	DispatchInputs []string
+	StepIDs        []string
 }
 
 // Workflow draws a random valid workflow.
@@ -259,6 +261,7 @@ func (g *G) Workflow() *WF {
 				for k := 0; k < g.i("ndin", 1, 3); k++ {
 					in := sec("dispatch-input")
 					name := g.fresh("din")
+					w.DispatchInputs = append(w.DispatchInputs, name)
 					p := "on.workflow_dispatch.inputs.<input_id>"
 					if g.b("ddesc") {
 						in.Set("description", tmpl("some input", p+".description", ""))
@@ -757,6 +760,7 @@ func (g *G) job(w *WF, id string) *ye.Node {
 	for k := 0; k < ns; k++ {
 		steps.Vals = append(steps.Vals, g.step(&ids))
 	}
+	w.StepIDs = append(w.StepIDs, ids...)
 	j.Set("steps", steps)
 	if len(ids) > 0 && g.b("jout") {
 		o := umap("outputs", true)
